@@ -14,6 +14,7 @@
 typedef struct { int id, kind, phase, qi; uint64_t call_seq, ret_seq, start_seq, end_seq; _Atomic int runs; int on_main; int result; int payload; } item_t;
 /* qi: 0 the main queue itself, 1 a serial lane targeting it, 2 a concurrent lane targeting it (C03 with a thread-bound bottom) */
 static dispatch_queue_t g_lane[3];
+static char g_key_main, g_key_lane;     /* queue-specific keys: one set on the main queue, one on each lane (C18) */
 static item_t g_items[MAXI];
 static _Atomic int g_nitems, g_fail, g_phase, g_clients_done;
 static int NT = 3, g_ops = 60;
@@ -27,6 +28,10 @@ static void item_fn(void *c)
 	it->start_seq = vrt_api("Start", 0, it->id, it->kind, 0);
 	atomic_fetch_add(&it->runs, 1);
 	it->on_main = pthread_equal(pthread_self(), g_main);
+	/* C18: dispatch_get_specific walks from the queue the item was submitted to down its targets: the main queue is the
+	 * bottom of all three, so its key is always found; the lane key is found on the lane it was set on only */
+	if (dispatch_get_specific(&g_key_main) != (void *)0x1001) oracle_fail("C18", "dispatch_get_specific: key set on the main queue not found from an item of its hierarchy", it->id, it->qi);
+	if (dispatch_get_specific(&g_key_lane) != (it->qi ? (void *)(uintptr_t)(0x2000 + it->qi) : NULL)) oracle_fail("C18", "dispatch_get_specific: wrong value for the key set on the lanes", it->id, it->qi);
 	if (it->payload != it->id * 3 + 1) oracle_fail("C05", "submitter's writes not visible in main-queue item", it->id, it->payload);
 	g_chain++;
 	if (vrt_rand() % 5 == 0) { volatile int x = 0; for (int i = 0; i < 500; i++) x++; }
@@ -125,6 +130,9 @@ int main(int argc, char **argv)
 	g_lane[0] = dispatch_get_main_queue();
 	g_lane[1] = dispatch_queue_create_with_target("verif.main.serial", DISPATCH_QUEUE_SERIAL, dispatch_get_main_queue());
 	g_lane[2] = dispatch_queue_create_with_target("verif.main.conc", DISPATCH_QUEUE_CONCURRENT, dispatch_get_main_queue());
+	dispatch_queue_set_specific(g_lane[0], &g_key_main, (void *)0x1001, NULL);
+	dispatch_queue_set_specific(g_lane[1], &g_key_lane, (void *)0x2001, NULL);
+	dispatch_queue_set_specific(g_lane[2], &g_key_lane, (void *)0x2002, NULL);
 	vrt_register(g_lane[1], sizeof(struct dispatch_lane_s), 1);
 	vrt_register(g_lane[2], sizeof(struct dispatch_lane_s), 1);
 	pthread_t th[8], fin;
